@@ -1280,11 +1280,11 @@ func ValueTupleExpr(query *Query, current Map, expr *sqlparser.ValTuple, opts ..
 		if err != nil {
 			return nil, err
 		}
-		if colName, ok := value.(ColumnName); ok {
-			value, err = ExecReader(current, string(colName))
-			if err != nil {
-				return nil, err
-			}
+		// column references, string literals and arithmetic results are still
+		// engine-internal wrappers at this point
+		value, err = ValueOf(query, current, value)
+		if err != nil {
+			return nil, err
 		}
 		slice = append(slice, value)
 	}
